@@ -57,7 +57,14 @@ func (k Keeper) BridgeCallHandler(ctx sdk.Context, msg *types.MsgBridgeCallClaim
 			},
 		)
 	}
-	return k.BridgeCallFailedRefund(ctx, msg.GetRefundAddr(), baseCoins, msg.EventNonce)
+	// the claimed tokens were credited to receiverAddr, the refund is escrowed from the refund address
+	refundAddr := msg.GetRefundAddr()
+	if refundAddr != receiverAddr && baseCoins.IsAllPositive() {
+		if err = k.bankKeeper.SendCoins(ctx, receiverAddr.Bytes(), refundAddr.Bytes(), baseCoins); err != nil {
+			return err
+		}
+	}
+	return k.BridgeCallFailedRefund(ctx, refundAddr, baseCoins, msg.EventNonce)
 }
 
 func (k Keeper) BridgeCallEvm(ctx sdk.Context, sender, refundAddr, to, receiverAddr common.Address, baseCoins sdk.Coins, data, memo []byte, value sdkmath.Int, isMemoSendCallTo bool) error {
